@@ -59,6 +59,13 @@ def regenerate(res):
         res.broken.append("translator T8 (rfreader2gallina) rejects the current _get_file_list: %s" % e)
         return
     common.write_if_changed(os.path.join(common.COQ, "Gen", "RfLookupGen.v"), text)
+    import rfread2gallina
+    try:
+        text = rfread2gallina.translate(common.REPO)
+    except c2gallina.Unsupported as e:
+        res.broken.append("translator T9 (rfread2gallina) rejects the current _read: %s" % e)
+        return
+    common.write_if_changed(os.path.join(common.COQ, "Gen", "RfReadGen.v"), text)
 
 def cdiv(a, b):
     return -((-a) // b)
